@@ -2,8 +2,8 @@ import TxV.Drv.Common
 import TxV.Model.Config
 /-
 Driver for the configuration model (C10, C11).
-  reset <lists n,n|-> <defaults n:hex.hex;…|->
-  boot <n> <hex,hex|->      assign <n> s<hex> | assign <n> l<hex,…|->
+  reset <types, one letter per option: L P C B A I F S> <defaults n:hex.hex;…|->
+  boot <n> <hex,hex|-> [<hex|->: the __FooPort value]      assign <n> s<hex> | assign <n> l<hex,…|->
   lop <n> append <hex> | extend <hex,…> | insert <i> <hex> | remove <hex> | pop | setitem <i> <hex>
   save | ack <0|1> | conf <n:hex.hex;…>
   read <n> | needs
@@ -23,6 +23,10 @@ def decChanges (s : String) : Option (List (Nat × List (List Char))) :=
     | [n, vs] => do pure (← n.toNat?, ← decTexts "." vs)
     | _ => none
 
+def decTy : Char → Option Ty
+  | 'L' => some .line | 'P' => some .port | 'C' => some .comma | 'B' => some .bool | 'A' => some .auto
+  | 'I' => some .int | 'F' => some .float | 'S' => some .str | _ => none
+
 def showOut : Out → String
   | .setconf args => "setconf " ++ (if args.isEmpty then "-" else ",".intercalate (args.map fun a => toString a.1 ++ ":" ++ Hex.encText a.2))
   | .saved => "saved"
@@ -41,14 +45,18 @@ def decOp : List String → Option ListOp
 
 def step (s : St) (line : String) : St × String :=
   match words line with
-  | ["reset", lists, defaults] =>
-    match (if lists = "-" then some [] else (lists.splitOn ",").mapM String.toNat?), decChanges defaults with
-    | some ls, some ds => ({ isList := ls, defaults := ds }, "ok")
+  | ["reset", types, defaults] =>
+    match types.toList.mapM decTy, decChanges defaults with
+    | some ts, some ds => ({ types := ts.zipIdx.map fun (t, i) => (i, t), defaults := ds }, "ok")
     | _, _ => (s, "bad-op")
   | ["boot", n, vals] =>
     match n.toNat?, decTexts "," vals with
     | some name, some vs => (bootOption s name vs, "ok")
     | _, _ => (s, "bad-op")
+  | ["boot", n, vals, under] =>
+    match n.toNat?, decTexts "," vals, (if under = "-" then some none else (Hex.decodeText under).map some) with
+    | some name, some vs, some u => (bootOption s name vs u, "ok")
+    | _, _, _ => (s, "bad-op")
   | ["assign", n, v] =>
     match n.toNat?, v.toList with
     | some name, 's' :: r =>
